@@ -555,3 +555,93 @@ fn collect_scalars(docs: &[CN], out: &mut Vec<CN>) {
         }
     }
 }
+
+// ------------------------------------------------------------------------------------------------
+// C07 against an external oracle: the JSON renderings that ship with the yaml-test-suite
+// ------------------------------------------------------------------------------------------------
+
+/// Structural comparison of a loaded document with the suite's JSON rendering: container kinds,
+/// sizes, order, string keys and string contents must agree. Differences that are only about scalar
+/// *typing* (C08's subject, e.g. `True`) are counted and ignored.
+fn json_shape_diff(j: &J, c: &CN, path: &str, ignored: &mut u64) -> Option<String> {
+    match (j, c) {
+        (J::Arr(a), CN::Seq(b)) => {
+            if a.len() != b.len() {
+                return Some(format!("{path}: sequence of {} items, the suite's JSON has {}", b.len(), a.len()));
+            }
+            for (i, (x, y)) in a.iter().zip(b).enumerate() {
+                if let Some(d) = json_shape_diff(x, y, &format!("{path}[{i}]"), ignored) {
+                    return Some(d);
+                }
+            }
+            None
+        }
+        (J::Obj(a), CN::Map(b)) => {
+            if a.len() != b.len() {
+                return Some(format!("{path}: mapping of {} entries, the suite's JSON has {}", b.len(), a.len()));
+            }
+            // (the member order of the suite's JSON objects is not significant: match by key)
+            for (ck, cv) in b {
+                match ck {
+                    CN::Str(s) => {
+                        let Some((jk, jv)) = a.iter().find(|(jk, _)| jk == s) else {
+                            return Some(format!("{path}: key {s:?} which the suite's JSON does not have"));
+                        };
+                        if let Some(d) = json_shape_diff(jv, cv, &format!("{path}.{jk}"), ignored) {
+                            return Some(d);
+                        }
+                    }
+                    _ => *ignored += 1,
+                }
+            }
+            None
+        }
+        (J::Str(a), CN::Str(b)) => {
+            if a != b {
+                Some(format!("{path}: string {b:?}, the suite's JSON has {a:?}"))
+            } else {
+                None
+            }
+        }
+        (J::Arr(_) | J::Obj(_), other) | (_, other @ (CN::Seq(_) | CN::Map(_))) => Some(format!("{path}: loaded {} where the suite's JSON has a different kind of node", other.show())),
+        _ => {
+            *ignored += 1;
+            None
+        }
+    }
+}
+
+pub fn check_corpus_json(stats: &mut Stats) {
+    for c in corpus::all() {
+        let Some(js) = &c.json else { continue };
+        if c.fail {
+            continue;
+        }
+        let Ok(jdocs) = crate::util::JParser::parse_stream(js) else {
+            stats.cnt("corpus_json_unparsable", 1);
+            continue;
+        };
+        if !crate::events::terminates(&c.yaml) {
+            continue;
+        }
+        let Ok(Ok(docs)) = catch(|| Yaml::load_from_str(&c.yaml).map(|d| d.iter().map(cn_yaml).collect::<Vec<_>>())) else { continue };
+        stats.cnt("corpus_json_cases", 1);
+        let mut ignored = 0u64;
+        let diff = if docs.len() != jdocs.len() {
+            // an empty stream has no JSON; a document that is only null may be rendered as nothing
+            if jdocs.is_empty() || docs.is_empty() {
+                None
+            } else {
+                Some(format!("{} documents loaded, the suite's JSON has {}", docs.len(), jdocs.len()))
+            }
+        } else {
+            jdocs.iter().zip(docs.iter()).enumerate().find_map(|(i, (j, d))| json_shape_diff(j, d, &format!("doc{i}"), &mut ignored))
+        };
+        stats.cnt("corpus_json_scalar_typing_differences_ignored", ignored);
+        if let Some(d) = diff {
+            viol(stats, format!("C07/corpus-json/{}", c.id), format!("yaml-test-suite case {}: {d}", c.id), case_json(&c.yaml, vec![("suite_json", J::s(js))]));
+        } else {
+            stats.cnt("corpus_json_matching", 1);
+        }
+    }
+}
